@@ -246,12 +246,12 @@ func runCase(k int, seed uint64, tier string) *caseOut {
 			accepted = sr.batchInfo[i-1].accepted
 		}
 		tag := ""
-		if i > 0 && sr.batchInfo[i-1].phase == "wait" && cfg.RemoveUntraceableBlocks {
-			// a flush inside storeBlock of a node whose MPT counts references (known finding rcwait-continue-addblock)
-			tag = "rcwait-"
-			c.cnt.count("crashpoint:after-flush-inside-block-rc-mpt")
-		} else if i > 0 && sr.batchInfo[i-1].phase == "wait" {
+		if i > 0 && sr.batchInfo[i-1].phase == "wait" {
+			// a flush inside storeBlock (the batch must hold nothing of the waiting block)
 			c.cnt.count("crashpoint:after-flush-inside-block")
+			if cfg.RemoveUntraceableBlocks {
+				c.cnt.count("crashpoint:after-flush-inside-block-rc-mpt")
+			}
 		}
 		checkPrefix(c, h, cfg, len(bs), accepted, false, i, copyDB(db), skip, tag)
 	}
